@@ -597,7 +597,40 @@ def rule_G6(ctx, rule: str = "G6") -> None:
     fn = mod.func("ServiceStub._send_messages")
     ctx.analysed("ServiceStub._send_messages", "ServiceStub._stream_unary", "ServiceStub._stream_stream", "ServiceStub._unary_unary", "ServiceStub._unary_stream")
     g = CFG(fn, implicit_exc=False)
-    ends = {nd.id for nd in _stmt_nodes(g, lambda s: _calls(s, ".end") and _has_await(s))}
+    def _ends_stream(s_: ast.AST) -> bool:
+        # await stream.end()  or  await stream.send_message(x, end=True): both half-close the request side
+        if not _has_await(s_):
+            return False
+        if _calls(s_, ".end"):
+            return True
+        return any(isinstance(c, ast.Call) and isinstance(c.func, ast.Attribute) and c.func.attr == "send_message"
+                   and any(k.arg == "end" and isinstance(k.value, ast.Constant) and k.value.value is True for k in c.keywords) for c in own_nodes(s_))
+
+    ends = {nd.id for nd in _stmt_nodes(g, _ends_stream)}
+    # every request is handed to the transport in the iteration that obtained it: a message held back until the iterator
+    # yields the next one (look-ahead) is never delivered to a peer that answers before the caller produces more
+    held = None
+    n_loops = 0
+    for lp in [n for n in ast.walk(fn) if isinstance(n, (ast.For, ast.AsyncFor))]:
+        n_loops += 1
+        tgt = {x.id for x in ast.walk(lp.target) if isinstance(x, ast.Name)}
+        lg_nodes = [nd for nd in g.nodes_for(lp) if nd.kind == "loop"]
+        sends_now = {nd.id for nd in g.nodes if nd.kind == "stmt" and nd.stmt is not None and any(
+            isinstance(c, ast.Call) and isinstance(c.func, ast.Attribute) and c.func.attr == "send_message" and c.args and isinstance(c.args[0], ast.Name) and c.args[0].id in tgt
+            for c in own_nodes(nd.stmt)) and any(nd.stmt is x for x in ast.walk(lp))}
+        for h in lg_nodes:
+            starts = [m_ for m_, lab in g.succ[h.id] if lab == "iter"]
+            # can the loop head be reached again (next message requested) without having sent this one?
+            if h.id in g.reachable(starts, avoid=sends_now, labels=normal_edge):
+                held = held or lp
+    if n_loops and held is None:
+        ctx.proved(rule, "_send_messages:sent-when-obtained", mod.loc(fn), f"{n_loops} loops send their own message in every iteration")
+    elif held is not None:
+        ctx.refuted(rule, "_send_messages:sent-when-obtained", "held-back", mod.loc(held),
+                    "a request taken from the iterator is not sent in the same iteration (it is kept until the iterator produces the next one or ends): in a conversational "
+                    "bidirectional call, where the next request depends on the reply to this one, the request is never delivered and both sides wait", "ping-pong over a stream-stream RPC")
+    else:
+        ctx.inconclusive(rule, "_send_messages:sent-when-obtained", "no request loop found", mod.loc(fn))
     if ends and g.exit.id not in g.reachable([g.entry.id], avoid=ends, labels=normal_edge):
         ctx.proved(rule, "_send_messages:ends-stream", mod.loc(fn))
     else:
